@@ -169,6 +169,10 @@ impl ErrorKind {
     pub(crate) fn errno(&self) -> Option<i32> {
         match self {
             ErrorKind::NotImplemented => Some(libc::ENOSYS),
+            // The kernel's own answer for a missing feature is ENOSYS (this is what
+            // openat2(2) said if we end up here), so C callers get that errno
+            // rather than no errno at all.
+            ErrorKind::NotSupported => Some(libc::ENOSYS),
             ErrorKind::InvalidArgument => Some(libc::EINVAL),
             ErrorKind::SafetyViolation => Some(libc::EXDEV),
             ErrorKind::OsError(errno) => *errno,
